@@ -103,7 +103,13 @@ def case(job):
         bad("constructor-raises:%s" % type(e).__name__, repr(e))
         return part
     npts = len(lon)
-    n_req = req[0] * req[1]
+    n_req = int(np.prod(req))
+    # acceptable cells per point as a padded table (every element of a request is judged, also where a large
+    # request wraps around the point list)
+    acc4 = np.full((npts, 4), -1, dtype=np.int64)
+    for k, a in enumerate(accept):
+        for j, (cy, cx) in enumerate(sorted(a)):
+            acc4[k, j] = cy * nx + cx
     for sh in SHIFTS:
         if galactic and sh not in (0, 1):
             continue
@@ -113,7 +119,7 @@ def case(job):
             qlat = lat[sel].reshape(req)
             part.case(nontrivial=(ny == 1 or nx == 1 or ny % 2 == 1 or nx % 2 == 1 or sh != 0), n=min(n_req, npts - start))
             try:
-                other(qlon[:1, :1], qlat[:1, :1])
+                other(qlon.reshape(-1)[:1], qlat.reshape(-1)[:1])
                 out = np.asarray(sampler(qlon, qlat))
             except Exception as e:
                 bad("raises:%s" % type(e).__name__, repr(e), {"lon_shift_turns": sh})
@@ -127,14 +133,15 @@ def case(job):
                 cell = flat[:, 0].astype(int) + 251 * flat[:, 1].astype(int)
             else:
                 cell = flat.astype(int)
-            for q in range(min(n_req, npts - start)):
+            okq = (np.asarray(cell, dtype=np.int64)[:, None] == acc4[sel]).any(axis=1)
+            if not okq.all():
+                q = int(np.argmin(okq))
                 k = sel[q]
                 got = (int(cell[q]) // nx, int(cell[q]) % nx)
-                if got not in accept[k]:
-                    kind = "interior" if len(accept[k]) == 1 else "boundary"
-                    clause = "wrong-cell/%s%s" % (kind, "/shifted-longitude" if sh else "")
-                    bad(clause, "lon=%.12f lat=%.12f (shift %d turns) sampled cell %r, layout says %r" % (lon[k], lat[k], sh, got, sorted(accept[k])), {"lon": float(lon[k]), "lat": float(lat[k]), "lon_shift_turns": sh})
-                    break
+                kind = "interior" if len(accept[k]) == 1 else "boundary"
+                clause = "wrong-cell/%s%s%s" % (kind, "/shifted-longitude" if sh else "", "/beyond-one-tile-of-points" if q >= 65536 else "")
+                bad(clause, "element %d of the request: lon=%.12f lat=%.12f (shift %d turns) sampled cell %r, layout says %r (%d of %d elements wrong)" % (q, lon[k], lat[k], sh, got, sorted(accept[k]), int((~okq).sum()), n_req), {"lon": float(lon[k]), "lat": float(lat[k]), "lon_shift_turns": sh})
+                break
     # request patterns a cache or an in-place shortcut would get wrong: two requests of one shape with the
     # same first and last point but different interior; read-only inputs; inputs must come back unchanged
     if npts >= 4:
@@ -170,7 +177,8 @@ def run(tier, seed):
     rep = Report(PROP, tier, seed, "exploration")
     sizes = [1, 2, 3, 4, 5, 16] if tier == "quick" else [1, 2, 3, 4, 5, 7, 8, 16, 17, 31, 32, 64, 90]
     rep.rule = (
-        "5 sampler variants x map shapes (ny, nx) in %r squared x {scalar, RGB} x request shapes; per cell 6 interior and 8 boundary points, "
+        "5 sampler variants x map shapes (ny, nx) in %r squared (plus axis lengths 127..129, 255..257 - thorough also 32767..32769, 65535, 65536 - against a short other axis) x {scalar, RGB} x request shapes "
+        "(1-D and 2-D, up to 300x300 and 70001 points, i.e. larger than and not a multiple of one tile); per cell 6 interior and 8 boundary points, "
         "each at longitude shifts of %r turns (Galactic: interior points only, after an astropy Galactic->ICRS conversion); "
         "evaluations = points sampled; non-trivial = 1-pixel or odd axis, or shifted longitude" % (sizes, SHIFTS)
     )
@@ -183,10 +191,20 @@ def run(tier, seed):
             for rgb in (False, True):
                 if rgb and (ny + nx) % 3 and tier == "quick":
                     continue
-                req = [(3, 5), (1, 1), (256, 256)][(ny + nx + int(rgb)) % 3]
+                req = [(3, 5), (1, 1), (256, 256), (7,), (257, 256), (70001,)][(ny + nx + int(rgb)) % 6]
                 if req == (1, 1) and ny * nx > 16:
                     req = (3, 5)
                 jobs.append((v, ny, nx, rgb, req))
+        # axis lengths at the limits of the narrow integer types (an index one past the end must not wrap),
+        # paired with a short other axis; requests larger than one tile and not a multiple of it
+        edge = [127, 128, 129, 255, 256, 257] + ([32767, 32768, 32769, 65535, 65536] if tier == "thorough" else [])
+        for k, n in enumerate(edge):
+            for m in (2, 5):
+                if v == "plate_carree_galactic_sampler" and n * m > 1300 and tier == "quick":
+                    continue
+                big = n > 1000
+                jobs.append((v, n, m, False, (300, 300) if not big else (70001,)))
+                jobs.append((v, m, n, bool(k % 2) and not big, (257, 256) if not big else (65537,)))
     par.pmap(case, jobs, rep, chunksize=1)
     return rep.finish()
 
